@@ -317,6 +317,14 @@ def trace_validation(ctx: core.Ctx, per_curve: int, ncalls: int) -> None:
                     events.append({"tid": tid, "seq": s, **strip(e)})
                 nfit = sum(e["ev"] == "Fit" for e in evs)
                 ctx.case(f"obj/{t[0]}/{kind}/{small}/{j}", nontrivial=nfit > 0)
+    # the well of defect D16, a fixed object of every run
+    env.import_bluebonnet()
+    evs, info = drv.d16_events()
+    tid += 1
+    meta[tid] = {"curve": "ideal", "j": -16, "kind": "default", "small": False, "ncalls": 1, "info": info, "evs": evs}
+    for s, e in enumerate(evs):
+        events.append({"tid": tid, "seq": s, **strip(e)})
+    ctx.case("obj/regression well D16")
     verdicts = trace.validate(ctx, "ForecastTrace", events)
     for v in verdicts:
         m = meta[v["tid"]]
